@@ -129,6 +129,8 @@ NEEDS = {
  'C18-i': ('C18', ['C16'], 'TexGroup.parse rejects strings ending in an escaped delimiter: `{a\\\\}` (group ending in a line break) is refused although balanced'),
  'C19-i': ('C19', ['C13'], 'tokenize overwrites token positions with a running sum of token lengths: after a dropped NUL/DEL at a token boundary every later offset is one too small'),
  'C20-i': ('C20', [], 'Buffer.__next__ refills one item per recursive call: a forward jump over about 1000 unbuffered items raises RecursionError'),
+ 'C06-i': ('C06', ['C19'], 'a new `\\verb` tokenizer scans for its delimiter without an end-of-input guard: an unterminated `\\verb|foo` at the end of the input leaks AttributeError'),
+ 'C10-i': ('C10', ['C19'], 'a `%` directly inside the brace argument of `\\url` is not a comment (percent-encoded URLs): the payload after it is live'),
 }
 
 
